@@ -30,6 +30,10 @@ pub struct Cfg {
     pub name_searcher: bool,
     pub v6: bool,
     pub rng_seed: u64,
+    /// instant of the search
+    pub search_at_ms: u64,
+    /// an earlier non-announcing search (instant, info-hash) that refreshes part of the table
+    pub warmup: Vec<(u64, [u8; 20])>,
 }
 
 pub fn searcher_addr(v6: bool) -> SocketAddr {
@@ -87,14 +91,25 @@ pub fn build(cfg: &Cfg) -> (Scenario, Vec<Box<dyn Peer>>) {
         start_ms: 0,
     });
     sc.actions.push((When::At(0), Action::Bootstrapped { node: 0, tag: "boot".into() }));
-    sc.actions.push((When::At(T_SEARCH), Action::Search { node: 0, info_hash: InfoHash::from(cfg.info_hash), announce: cfg.announce, tag: "search".into() }));
+    for (k, (t, h)) in cfg.warmup.iter().enumerate() {
+        sc.actions.push((When::At(*t), Action::Search { node: 0, info_hash: InfoHash::from(*h), announce: false, tag: format!("warmup{k}") }));
+    }
+    sc.actions.push((When::At(cfg.search_at_ms), Action::Search { node: 0, info_hash: InfoHash::from(cfg.info_hash), announce: cfg.announce, tag: "search".into() }));
     sc.stop_after = vec!["search".into()];
     sc.linger_ms = 30;
-    sc.horizon_ms = T_SEARCH + 600_000;
+    sc.horizon_ms = cfg.search_at_ms + 600_000;
     sc.link_latency = Arc::new(|_, _| 20);
+    if !cfg.warmup.is_empty() && std::env::var("VERIF_DEBUG2").is_ok() {
+        sc.sample = vec![(0, 30_000, 1_000)];
+    }
+    if !cfg.warmup.is_empty() {
+        // contacts sample right before the search (debugging aid and evidence of the table state)
+        sc.actions.push((When::At(cfg.search_at_ms - 1), Action::LoadContacts { node: 0, tag: "pre".into() }));
+    }
     let ih = cfg.info_hash;
+    let t_search = cfg.search_at_ms;
     sc.eligible = Some(Arc::new(move |d, p| {
-        d.sent_ms >= T_SEARCH && p.valid && ((p.y == 'q' && (p.q == "get_peers" || p.q == "announce_peer") && p.target == Some(ih)) || (p.y == 'r' && p.token.is_some()))
+        d.sent_ms >= t_search && p.valid && ((p.y == 'q' && (p.q == "get_peers" || p.q == "announce_peer") && p.target == Some(ih)) || (p.y == 'r' && p.token.is_some()))
     }));
     (sc, peers)
 }
@@ -106,13 +121,14 @@ pub fn judge(cfg: &Cfg, res: &RunResult) -> Vec<(String, String)> {
         v.push(("search-did-not-end".to_string(), format!("horizon {} ms", res.end_ms)));
         return v;
     }
-    if res.resolved("boot").map_or(true, |r| r.0 > T_SEARCH) {
+    let t_search = cfg.search_at_ms;
+    if res.resolved("boot").map_or(true, |r| r.0 > t_search) {
         // premise: the searcher is bootstrapped when it searches
         return v;
     }
     // the search's get_peers queries and the answers delivered to them
     let mut queries: BTreeMap<Vec<u8>, (SocketAddr, u64)> = BTreeMap::new();
-    for d in res.wire.iter().filter(|d| d.src == s && d.sent_ms >= T_SEARCH) {
+    for d in res.wire.iter().filter(|d| d.src == s && d.sent_ms >= t_search) {
         let p = krpc::parse(&d.bytes);
         if p.is_query("get_peers") && p.target == Some(cfg.info_hash) {
             queries.insert(p.tid.clone(), (d.dst, d.sent_ms));
@@ -147,7 +163,7 @@ pub fn judge(cfg: &Cfg, res: &RunResult) -> Vec<(String, String)> {
     let announces: Vec<(SocketAddr, krpc::Parsed)> = res
         .wire
         .iter()
-        .filter(|d| d.src == s && d.sent_ms >= T_SEARCH)
+        .filter(|d| d.src == s && d.sent_ms >= t_search)
         .map(|d| (d.dst, krpc::parse(&d.bytes)))
         .filter(|(_, p)| p.is_query("announce_peer"))
         .collect();
@@ -213,7 +229,7 @@ fn token_of(i: usize, id: &[u8; 20]) -> Vec<u8> {
 
 fn cfg_json(c: &Cfg) -> Value {
     json!({"ids": c.ids.iter().map(|i| hex(i)).collect::<Vec<_>>(), "searcher_id": hex(&c.searcher_id), "info_hash": hex(&c.info_hash), "contacts": c.contacts,
-        "read_only": c.read_only, "port": c.port, "announce": c.announce, "peer_sets": c.peer_sets, "name_searcher": c.name_searcher, "v6": c.v6, "rng_seed": c.rng_seed})
+        "read_only": c.read_only, "port": c.port, "announce": c.announce, "peer_sets": c.peer_sets, "name_searcher": c.name_searcher, "v6": c.v6, "rng_seed": c.rng_seed, "search_at_ms": c.search_at_ms, "warmup": c.warmup.iter().map(|(t, h)| json!([t, hex(h)])).collect::<Vec<_>>()})
 }
 fn arr20(s: &str) -> [u8; 20] {
     let v = unhex(s);
@@ -234,6 +250,8 @@ fn cfg_parse(v: &Value) -> Cfg {
         name_searcher: v["name_searcher"].as_bool().unwrap_or(false),
         v6: v["v6"].as_bool().unwrap_or(false),
         rng_seed: v["rng_seed"].as_u64().unwrap_or(1),
+        search_at_ms: v["search_at_ms"].as_u64().unwrap_or(T_SEARCH),
+        warmup: v["warmup"].as_array().map(|a| a.iter().map(|w| (w[0].as_u64().unwrap(), arr20(w[1].as_str().unwrap()))).collect()).unwrap_or_default(),
     }
 }
 
@@ -256,7 +274,7 @@ pub fn replay(v: &Value) -> i32 {
     let fs = if prefix.is_empty() { vec![None] } else { fates() };
     let (res, viol, _) = run_cfg(&cfg, &fs, &prefix);
     let s = searcher_addr(cfg.v6);
-    for d in res.wire.iter().filter(|d| d.sent_ms >= T_SEARCH && (d.src == s || d.dst == s)).take(200) {
+    for d in res.wire.iter().filter(|d| d.sent_ms >= cfg.search_at_ms && (d.src == s || d.dst == s)).take(200) {
         let p = krpc::parse(&d.bytes);
         if p.q == "find_node" || (p.y == 'r' && p.token.is_none() && p.values.is_empty() && !d.from_real && false) {
             continue;
@@ -310,7 +328,7 @@ pub fn structured(kind: u8, n: usize, seed: u64) -> Cfg {
     }
     ids.sort();
     ids.dedup();
-    Cfg { ids, searcher_id, info_hash, contacts: vec![0], read_only: true, port: None, announce: true, peer_sets: 2, name_searcher: false, v6: false, rng_seed: 1 + seed }
+    Cfg { ids, searcher_id, info_hash, contacts: vec![0], read_only: true, port: None, announce: true, peer_sets: 2, name_searcher: false, v6: false, rng_seed: 1 + seed, search_at_ms: T_SEARCH, warmup: vec![] }
 }
 
 pub fn run(tier: Tier) -> Report {
@@ -341,7 +359,7 @@ pub fn run(tier: Tier) -> Report {
                     1 => ids[ids.len() / 2],
                     _ => *sid,
                 };
-                l1.push(Cfg { ids: ids.clone(), searcher_id: *sid, info_hash: ih, contacts: vec![0], read_only: true, port: None, announce: true, peer_sets: 2, name_searcher: false, v6: false, rng_seed: 1 + seed });
+                l1.push(Cfg { ids: ids.clone(), searcher_id: *sid, info_hash: ih, contacts: vec![0], read_only: true, port: None, announce: true, peer_sets: 2, name_searcher: false, v6: false, rng_seed: 1 + seed, search_at_ms: T_SEARCH, warmup: vec![] });
             }
         }
     }
@@ -365,7 +383,7 @@ pub fn run(tier: Tier) -> Report {
                                 if v6 && (peer_sets == 0 || !read_only) {
                                     continue;
                                 }
-                                l3.push(Cfg { ids: ids.clone(), searcher_id: far, info_hash: ih, contacts: contacts.clone(), read_only, port, announce, peer_sets, name_searcher, v6, rng_seed: 1 + seed });
+                                l3.push(Cfg { ids: ids.clone(), searcher_id: far, info_hash: ih, contacts: contacts.clone(), read_only, port, announce, peer_sets, name_searcher, v6, rng_seed: 1 + seed, search_at_ms: T_SEARCH, warmup: vec![] });
                             }
                         }
                     }
@@ -384,12 +402,58 @@ pub fn run(tier: Tier) -> Report {
             big.push(c);
         }
     }
+    // stale bucket: the 8 entries of the target's bucket turn questionable (15 min after their last
+    // answer) while nearer buckets were refreshed by a warm-up search; the search is issued at
+    // every half second across that window
+    let mut stale: Vec<Cfg> = vec![];
+    {
+        let mut sid = [0x5au8; 20];
+        sid[0] = 0x80;
+        let mut ids: Vec<[u8; 20]> = vec![];
+        for i in 0..8u8 {
+            let mut id = [0x11u8; 20];
+            id[0] = 0x08 | i; // far half: bucket 0 of the searcher, close to the target
+            id[19] = i;
+            ids.push(id);
+        }
+        for i in 0..14u8 {
+            let mut id = [0x22u8; 20];
+            id[0] = 0x80 | (0x40 >> (i % 6)); // near half, spread over buckets 1..6
+            id[1] = i;
+            ids.push(id);
+        }
+        let mut target = [0x11u8; 20];
+        target[0] = 0x09;
+        let mut near = sid;
+        near[19] ^= 1;
+        // warm-up searches: the far half is last heard at ~100 s, the near half at ~300 s; the far
+        // entries therefore all turn questionable within a fraction of a second after 1000 s
+        let mut far_hash = target;
+        far_hash[19] ^= 0x55;
+        let step = tier.pick(500u64, 100u64);
+        let mut t = 999_000u64;
+        while t <= 1_008_000 {
+            stale.push(Cfg { ids: ids.clone(), searcher_id: sid, info_hash: target, contacts: vec![8, 9, 10, 0, 1], read_only: true, port: None, announce: true, peer_sets: 0, name_searcher: false, v6: false, rng_seed: 1 + seed, search_at_ms: t, warmup: vec![(100_000, far_hash), (300_000, near)] });
+            t += step;
+        }
+    }
     let mut distinct = std::collections::HashSet::new();
     let mut runs = 0u64;
-    for (name, set) in [("L1", &l1), ("L3", &l3), ("large", &big)] {
+    for (name, set) in [("L1", &l1), ("L3", &l3), ("large", &big), ("stale-bucket", &stale)] {
         let outs = par_map(set, |_, cfg| {
             let (res, viol, _) = run_cfg(cfg, &[None], &[]);
             let announces = res.wire.iter().filter(|d| d.from_real && krpc::parse(&d.bytes).is_query("announce_peer")).count() as u64;
+            // first-round profile: how many of the queries sent at the instant of the search go to the far half
+            let first_far = res.wire.iter().filter(|d| d.from_real && d.sent_ms == cfg.search_at_ms && krpc::parse(&d.bytes).is_query("get_peers")).count() as u64;
+            if name == "stale-bucket" && std::env::var("VERIF_DEBUG").is_ok() {
+                let contacts: Vec<String> = res.api.iter().filter_map(|e| match &e.kind { sim::ApiKind::Contacts { good, questionable } => Some(format!("{} g={} q={}", e.t_ms, good.len(), questionable.len())), _ => None }).collect();
+                eprintln!("stale t={} first_round_queries={} announces={} {:?}", cfg.search_at_ms, first_far, announces, contacts.last());
+                if std::env::var("VERIF_DEBUG2").is_ok() && cfg.search_at_ms == 900_000 {
+                    for c in &contacts { eprintln!("   {c}"); }
+                    let far_traffic: Vec<String> = res.wire.iter().filter(|d| d.sent_ms > 5_000 && d.sent_ms < 890_000 && (d.dst == resp_addr(0, false) || d.src == resp_addr(0, false))).map(|d| format!("{} {}>{} {}", d.sent_ms, d.src, d.dst, krpc::parse(&d.bytes).canon_key())).collect();
+                    for l in far_traffic.iter().take(30) { eprintln!("   {l}"); }
+                }
+            }
             (sim::trace_hash(&res, &format!("{:?}{:?}", cfg.info_hash, cfg.searcher_id)), res.wire.len() as u64, viol, announces, res.items("search").len() as u64)
         });
         for (cfg, (h, wire, viol, ann, items)) in set.iter().zip(outs.iter()) {
@@ -411,7 +475,7 @@ pub fn run(tier: Tier) -> Report {
     for t in tops.iter().filter(|t| t.len() >= 2) {
         let ids: Vec<[u8; 20]> = t.iter().map(|i| uni[*i]).collect();
         for (sid, ih) in [(far, prefix_id(0, bits, 0x11)), (prefix_id(2, bits, 0x99), prefix_id(5, bits, 0x33)), (far, ids[0])] {
-            l2.push(Cfg { ids: ids.clone(), searcher_id: sid, info_hash: ih, contacts: vec![ids.len() - 1], read_only: true, port: Some(1234), announce: true, peer_sets: 1, name_searcher: false, v6: false, rng_seed: 1 + seed });
+            l2.push(Cfg { ids: ids.clone(), searcher_id: sid, info_hash: ih, contacts: vec![ids.len() - 1], read_only: true, port: Some(1234), announce: true, peer_sets: 1, name_searcher: false, v6: false, rng_seed: 1 + seed, search_at_ms: T_SEARCH, warmup: vec![] });
         }
     }
     if tier == Tier::Quick {
